@@ -20,6 +20,30 @@ def sh(cmd, cwd=None):
     return p.returncode, p.stdout.decode("utf-8", "replace")
 
 
+def save_corpus(prop, seed):
+    """Keep the failing operation sequence of this seed as a corpus case of the property (replayed first by
+    every later run, judged by equality with the model), so that catching it no longer depends on the
+    random stream."""
+    import ast
+    rp = os.path.join(VERIF, "work", "replays", f"{prop}-quick-1.json")
+    dst = os.path.join(VERIF, "corpus", prop, seed + ".json")
+    if not os.path.exists(rp) or os.path.exists(dst):
+        return
+    r = json.load(open(rp)).get("replay")
+    if isinstance(r, str):
+        try:
+            r = ast.literal_eval(r)
+        except Exception:
+            return
+    if not isinstance(r, dict) or "ops" not in r or not (0 < len(r["ops"]) <= 700):
+        return
+    ops = [o.split(" ", 1)[1] if o.startswith("#") else o for o in r["ops"]]
+    if any(not o or o[0] not in "UMTNLXS" for o in ops):
+        return
+    os.makedirs(os.path.dirname(dst), exist_ok=True)
+    json.dump({"origin": "seed " + seed, "cfg": r.get("cfg"), "ops": ops}, open(dst, "w"))
+
+
 def main():
     pat = re.compile(sys.argv[1]) if len(sys.argv) > 1 else None
     rc, st = sh("git status --short", cwd="/repo")
@@ -45,6 +69,8 @@ def main():
             for c in checks:
                 rc, out = sh(f"./check {c} --skip-lean", cwd=VERIF)
                 (det if "VIOLATION property=" + c in out else mis).append(c)
+                if "VIOLATION property=" + c in out:
+                    save_corpus(c, name)
         finally:
             sh("git checkout -- .", cwd="/repo")
         meta["detected_by"], meta["missed_by"] = det, mis
